@@ -151,7 +151,8 @@ def r4(ctx, retsets):
         lo, hi, _ = rfc8210.TIMERS[name]
         ctx.check(got.get(probe) == (lo, hi), "C17.R1", "init:%s-range" % name, "%s:%d" % (fn.relfile, fn.line),
                   "range used for %s: %s (RFC: %d..%d)" % (name, got.get(probe), lo, hi), key="C17.R1:init:%s" % name)
-    small = {n: [lo - 1, lo, (lo + hi) // 2, hi, hi + 1] for n, (lo, hi, _) in rfc8210.TIMERS.items()}
+    # classes per interval: both sides of each bound, the middle, and the two extremes of the argument type (0 and 2^32-1)
+    small = {n: sorted({0, lo - 1, lo, (lo + hi) // 2, hi, hi + 1, 0xFFFFFFFF}) for n, (lo, hi, _) in rfc8210.TIMERS.items()}
     ncell = 0
     bad = []
     for rv in small["refresh"]:
@@ -178,7 +179,7 @@ def r4(ctx, retsets):
                       "refresh/expire/retry = %s: returns %s, interval stores %s (%d of %d cells wrong)" % (
                           [c[idx[k]] for k in ("refresh", "expire", "retry")], r, ivst, len(bad), ncell), key="C17.R4:rtr_init")
     else:
-        ctx.ok("C17.R4", "rtr_init-table", "%s:%d" % (fn.relfile, fn.line), "%d cells (5 classes per interval) as expected" % ncell)
+        ctx.ok("C17.R4", "rtr_init-table", "%s:%d" % (fn.relfile, fn.line), "%d cells (6-7 classes per interval incl. 0 and 2^32-1) as expected" % ncell)
     ctx.floor("C17.R4", ncell, 125)
     # propagation
     for cname in ("rtr_mgr_init_sockets",):
@@ -246,6 +247,29 @@ def r5(ctx, retsets):
     ctx.check(len(rc) == 1 and fresh, "C17.R5", "wait-recomputed-per-receive", c.loc(),
               "one receive per call, or the clock is read again inside the loop that repeats it" if (len(rc) == 1 and fresh) else
               "the receive is repeated in a loop that does not recompute the remaining wait (%d receive calls)" % len(rc), key="C17.R5:wait-fresh")
+    # the deadline covers the whole transfer: the _all loops hand each partial attempt the time that is left, not the full timeout
+    for lname, fpf in (("tr_recv_all", "tr_socket.recv_fp"), ("tr_send_all", "tr_socket.send_fp")):
+        lf = pdb.fn(lname)
+        ctx.touch(lf)
+        raw = lname[:-4]
+        attempts = [i for i in lf.all_insts() if i.op == "call" and (i.callee == raw or (i.callee is None and i.d.get("fptr") and
+                    vf.expr(lf, i["fptr"])[0] == "load" and vf.last_field(vf.expr(lf, i["fptr"])[1]) == fpf))]
+        if len(attempts) != 1:
+            raise AnalysisBroken("%s: expected one transfer attempt in the loop, found %d" % (lname, len(attempts)))
+        a = attempts[0]
+        bodies = [body for h, body in lf.loops().items() if a.block.id in body]
+        te = vf.expr(lf, a.args[3])
+        clocks = lf.calls("lrtr_get_monotonic_time")
+        inside = [k for k in clocks if bodies and k.block.id in min(bodies, key=len) and lf.dom(k, a)]
+        before = [k for k in clocks if not (bodies and k.block.id in min(bodies, key=len)) and lf.dom(k, a)]
+        uses_now = any(vf.mentions(te, lambda x, k=k: x == ("load", vf.expr(lf, k.args[0]))) for k in inside)
+        uses_end = any(vf.mentions(te, lambda x, k=k: x == ("load", vf.expr(lf, k.args[0]))) for k in before)
+        end_has_timeout = any(i.op == "store" and any(vf.expr(lf, i["ptr"]) == vf.expr(lf, k.args[0]) for k in before) and
+                              vf.mentions(vf.expr(lf, i["val"]), lambda x: x == ("arg", 3)) for i in lf.all_insts())
+        good = bool(bodies) and uses_now and uses_end and end_has_timeout
+        ctx.check(good, "C17.R5", "%s:remaining-time-per-attempt" % lname, a.loc(),
+                  "timeout of each attempt = %s; derived from a clock reading inside the loop: %s; from the deadline (clock before the loop + timeout): %s" % (
+                      vf.show(te), uses_now, uses_end and end_has_timeout), key="C17.R5:%s:remaining" % lname)
     # outcome table
     notify = pdb.enum_value("SERIAL_NOTIFY")
     wb = pdb.enum_value("TR_WOULDBLOCK")
